@@ -255,9 +255,8 @@ def execute(case, keep_log=False):
                       'sig': f'C20:{oracle}{sigx}'})
 
     # advertised DB-API attributes
-    adv = (beanquery.threadsafety, beanquery.apilevel, beanquery.paramstyle)
-    if adv != (2, '2.0', 'pyformat'):
-        violation('advertised-level', 'module', {'op': 'module'}, [2, '2.0', 'pyformat'], list(adv))
+    if getattr(beanquery, 'threadsafety', None) != 2:
+        violation('advertised-level', 'module', {'op': 'module'}, 2, getattr(beanquery, 'threadsafety', None))
 
     # serial pre-pass: every statement alone on a fresh connection, inert seams
     plan = []
